@@ -173,19 +173,19 @@ def r13_1_bytes_forms(ctx):
     ms = ctx.model.find_class("MethodSignature", "pyteal.ast.methodsig")
     init, teal = ms.methods["__init__"], ms.methods["__teal__"]
     ctx.analysed(init.fq, teal.fq)
-    for name, legal in (("add(uint64,uint64)uint64", True), ("f()void", True), ("", False), (5, False), ('a"b()void', False), ("f()void\nint 0\nreturn", False), ("f()void\\", False), ("f()void\r", False)):
+    for name, legal in (("add(uint64,uint64)uint64", True), ("f()void", True), ("caf\u00e9(uint64)void", True), ("f(uint64,\tbool)void", True), ("g(string) void", True), ("", False), (5, False), ('a"b()void', False), ("f()void\nint 0\nreturn", False), ("f()void\\", False), ("f()void\r", False)):
         selfs = Sym("self:MethodSignature")
         try:
-            run_function(init.node, {"self": selfs, "methodName": name}, oracle, init.fq, permissive=True)
-            op, _ = run_function(teal.node, {"self": selfs, "options": Sym("options")}, oracle, teal.fq, permissive=True)
+            run_function(init.node, {"self": selfs, "methodName": name}, oracle, init.fq, permissive=True, resolver=lambda nm: helpers.get(nm))
+            op, _ = run_function(teal.node, {"self": selfs, "options": Sym("options")}, oracle, teal.fq, permissive=True, resolver=lambda nm: helpers.get(nm))
             payload = op.args[0] if isinstance(op, OpVal) else None
-            if payload is None or not TL.is_single_token(payload):
+            if not isinstance(payload, str) or not TL.is_single_token(payload):
                 outcome = f"emits `{payload}`: the text escapes from the quoted token (injected TEAL)"
+            elif payload != '"' + name + '"':
+                # the `method` pseudo-op (and PyTeal's own reader) hashes the text between the quotes as it stands: no escape is undone
+                outcome = f"emits `{payload}`; the selector is the hash of the text between the quotes, which must be the signature itself"
             else:
-                try:
-                    outcome = "ok" if TL.decode_string_literal(payload) == name.encode() else f"token `{payload}` does not denote the signature text"
-                except TL.LiteralError as e:
-                    outcome = f"emits `{payload}`, which the assembler rejects ({e})"
+                outcome = "ok"
         except Raised as r:
             outcome = "refused" if "TealInputError" in r.exc_text else f"raises {r.exc_text[:40]}"
         want = "ok" if legal else "refused"
@@ -217,11 +217,52 @@ def r13_4_address(ctx):
     ctx.require_min("R13.4", 8)
 
 
+def r13_5_abi_text_setters(ctx):
+    from rules.abicommon import AbiWorld
+
+    ctx.rule("R13.5", "ABI string / byte values set from Python text or bytes hold exactly that text: String.set(str) stores the uint16 length of the UTF-8 encoding followed by the UTF-8 encoding of the string as given (no normalisation, no re-encoding), String.set(bytes) / DynamicBytes.set(bytes) the length and the bytes, StaticBytes.set(bytes) / Address.set(bytes) the bytes - for ASCII, precomposed and decomposed accents, compatibility characters, emoji, NUL and the empty string")
+    texts = ["", "abc", "café", "café", "Å", "가", "\U0001f600", "a\x00b", 'q"\\\n', "ﬁ"]
+    for cname, module, mk in (("String", "pyteal.ast.abi.string", lambda t: t), ("String", "pyteal.ast.abi.string", lambda t: t.encode("utf-8")), ("DynamicBytes", "pyteal.ast.abi.array_dynamic", lambda t: t.encode("utf-8"))):
+        c = ctx.model.try_class(cname)
+        if c is None:
+            continue
+        ctx.analysed(c.fq + ".set")
+        for t in texts:
+            W = AbiWorld(ctx)
+            W.real_bases = {"BaseType"}
+            arg = mk(t)
+            enc = t.encode("utf-8")
+            want = len(enc).to_bytes(2, "big") + enc
+            construct = f"{cname}.set({type(arg).__name__} {t!r})"
+
+            def extra(e, me):
+                if isinstance(e, ast.Call) and u(e.func).endswith('from_string("uint16").encode') or (isinstance(e, ast.Call) and u(e.func) == "ABIType.from_string('uint16').encode"):
+                    v = me.ev(e.args[0])
+                    return int(v).to_bytes(2, "big")
+                raise Unknown()
+
+            try:
+                inst = W.construct(cname, [], {})
+                W.me.oracle = W.oracle(extra)
+                res = inst.methods["set"](arg)
+            except Raised as r:
+                ctx.bad("R13.5", construct, f"refused: {r.exc_text[:60]}", c.where)
+                continue
+            # res = <storage>.store(Bytes(<payload>))
+            payload = None
+            if isinstance(res, Rec) and res.kind == "call" and res.args and isinstance(res.args[0], Rec) and res.args[0].is_call("Bytes") and res.args[0].args:
+                payload = res.args[0].args[0]
+            ok = isinstance(payload, (bytes, bytearray)) and bytes(payload) == want
+            ctx.check(ok, "R13.5", construct, f"stores Bytes({payload!r}); the value given is {want!r} (uint16 length + UTF-8 of the text as written)", c.where, fact={"stored": repr(payload)[:60]})
+    ctx.require_min("R13.5", 20)
+
+
 def run(ctx):
     r13_3_escape(ctx)
     r13_2_validators(ctx)
     r13_1_bytes_forms(ctx)
     r13_4_address(ctx)
+    r13_5_abi_text_setters(ctx)
     from rules import c12 as _c12
 
     _c12.r12_1_sites(ctx)  # with assembleConstants the literal is read back by PyTeal itself: the bytes pushed are the bytes the literal denotes (shared with C12)
